@@ -1560,7 +1560,9 @@ class ReceivePackHandler(PackHandler):
                             ref_status = b"failed to delete"
                     else:
                         try:
-                            if not self.repo.refs.set_if_equals(ref, oldsha, sha):
+                            if sha not in self.repo.object_store:
+                                ref_status = b"missing necessary objects"
+                            elif not self.repo.refs.set_if_equals(ref, oldsha, sha):
                                 ref_status = b"failed to update ref"
                         except all_exceptions:
                             ref_status = b"failed to write"
@@ -1593,7 +1595,9 @@ class ReceivePackHandler(PackHandler):
                             ref_status = b"failed to delete"
                     else:
                         try:
-                            if not self.repo.refs.set_if_equals(ref, oldsha, sha):
+                            if sha not in self.repo.object_store:
+                                ref_status = b"missing necessary objects"
+                            elif not self.repo.refs.set_if_equals(ref, oldsha, sha):
                                 ref_status = b"failed to update ref"
                         except all_exceptions:
                             ref_status = b"failed to write"
